@@ -99,6 +99,8 @@ LABELINGS = {
     "big": lambda: Labeling("big", lambda i: 10 ** 9 + i, shift=10 ** 6),
     "str": lambda: Labeling("str", lambda i: "n%s" % chr(96 + i) if i < 27 else "m%d" % i, shift=3),
     "tuple": lambda: Labeling("tuple", lambda i: (i, "x"), shift=-2),
+    # digit strings: the same text in a file as the integer ids, another node type
+    "dstr": lambda: Labeling("dstr", lambda i: str(i), shift=1),
     # non-ASCII string ids (encodable in latin-1 / cp1252 as well as utf-8)
     "uni": lambda: Labeling("uni", lambda i: ["zo\u00e9", "j\u00fcrgen", "\u00f1u", "\u00e5sa", "caf\u00e9-%d" % i][min(i, 5) - 1] if i < 5 else "caf\u00e9-%d" % i, shift=2),
     "mixed": lambda: Labeling("mixed", _mixed, shift=5, swap_undirected=True),
